@@ -162,6 +162,7 @@ mod vk_iter {
             }
             None => {
                 assert!(items == 0, "[C01 iter-none-lost] no item is taken from the wrapped iterator and then dropped");
+                if admitted { assert!(ended, "[C01 C05 C11 iter-none-only-at-end] an admitted holder reports the end only after the wrapped iterator did"); }
                 if admitted && ended {
                     let s = st();
                     let mut set = false;
@@ -275,7 +276,10 @@ mod vk_iter {
                 while j < 2 { if j < l { assert!(c.values.next() == Some(k + j), "[C01 C02 C03 iter-contents] items are delivered in source order"); } j += 1; }
                 assert!(c.values.next().is_none(), "[C03 iter-exact-len] the chunk yields exactly the announced number of items (stale slots are never yielded)");
             }
-            None => assert!(items == 0, "[C01 iter-none-lost] no item is taken from the wrapped iterator and then dropped"),
+            None => {
+                assert!(items == 0, "[C01 iter-none-lost] no item is taken from the wrapped iterator and then dropped");
+                if admitted { assert!(ended, "[C01 C05 C11 iter-none-only-at-end] an admitted holder reports the end only after the wrapped iterator did"); }
+            }
         }
     }
 
